@@ -176,8 +176,9 @@ func (s *Scanner) Length() uint {
 
 		if lex.Type() == lexeme.EndTop {
 			// Found character after the end of the schema and spaces.
-			// Example: char "s" in "{} some text"
-			length = uint(lex.End()) - 1
+			// Example: char "s" in "{} some text". The length is where the
+			// previous lexeme ended: that character may directly follow the
+			// schema ("{}x").
 			break
 		}
 
